@@ -1,7 +1,7 @@
 #!/bin/sh
 # usage: trypatch.sh <ID> <n> [props...]  — verifies an agent's patch+demo in its scratch worktree, then runs checks against it in /repo
 id=$1; n=$2; shift 2
-export GOFLAGS=-mod=mod GOPROXY=off GOSUMDB=off
+export GOFLAGS=-mod=mod GOPROXY=off GOSUMDB=off VERIF_NO_EVIDENCE=1
 W=/tmp/mut/$id
 cd $W || exit 9
 git checkout -q -- . ; rm -f zz_demo*_test.go
